@@ -122,7 +122,9 @@ class C16(core.Check):
                  "built-in-list oracle")
     level_text = ("Proved in Coq for every operation, index, slice, step and history, with no size bound: contents and error "
                   "kinds equal those of a Python list model and a failed call changes nothing and fires no callback; the focus is "
-                  "None iff empty and otherwise in range after any operation sequence; the modified / focus-changed callback "
+                  "None iff empty and otherwise in range after any operation sequence; after ANY operation sequence the contents equal "
+                  "those of a built-in-list model driven by the same calls and the i-th reported error is that list's i-th error "
+                  "(whole-history refinement), with modified fired at most once per call; the modified / focus-changed callback "
                   "clauses; the focus follows its item (positional form: the item at the old focus is at the new focus, the same "
                   "position when replaced in place, else the next kept item, else the last) for every successful operation: "
                   "contiguous ones (index and step-1 slice assignment/deletion, insert, append, extend, pop, remove, +=, *=, "
